@@ -305,7 +305,9 @@ def emit_case(case, child=child_cmd_default, shell_child=lambda t: 'true ' + t):
             em.line_site[len(L) + 1] = site
             k = ins['k']
             if k == 'set':
-                L.append('timeout = %s' % ('none' if ins['v'] is None else ins['v']))
+                L.append('timeout = ' + set_text(ins))
+            elif k == 'defint':
+                L.append('def string %s = %d' % (ins['sym'], ins['v']))
             elif k == 'stdin':
                 L.append('stdin = -stdout-from ' + child(em.new_tag(('act', 0), ins['d'])))
             elif k == 'plain':
@@ -391,7 +393,7 @@ def c_instr(ins, ph=None):
         return '(TStdin %s)' % cN(ins['d'])
     if k == 'plain':
         return '(TPlain %s)' % PLAIN_BEH[ins['b']]
-    if k == 'defprog':
+    if k in ('defprog', 'defint'):
         return '(TPlain BOk)'
     if k == 'spawn':
         return '(TSpawn %s)' % clist([cN(d) for d in model_ds(ph, ins)])
@@ -442,22 +444,30 @@ class PopenRecorder:
             m = TAG_RE.search(s)
             if not m:
                 return None
+            p._c19_tagged = True
+            if timeout is not None and (isinstance(timeout, bool) or not isinstance(timeout, int) or timeout < 0):
+                rec.records.append((int(m.group(1)), 'not-an-int:%r' % (timeout,)))  # cannot be printed as N: fail-closed
+                return None
             rec.records.append((int(m.group(1)), timeout))
             if timeout is not None and int(m.group(2)) > timeout:
                 return subprocess.TimeoutExpired(a, timeout)
             return None
 
+        # for a tagged child the duration is the simulated one (its tag): when the contract says "no expiry" the real
+        # `true` is waited for WITHOUT the limit (otherwise `timeout = 0` would race with the few ms `true` really needs)
         def wait(self, timeout=None):
+            first = not getattr(self, '_c19_seen', False)
             ex = note(self, timeout)
             if ex is not None:
                 raise ex
-            return orig_wait(self, timeout)
+            return orig_wait(self, None if (first and getattr(self, '_c19_tagged', False)) else timeout)
 
         def communicate(self, input=None, timeout=None):
+            first = not getattr(self, '_c19_seen', False)
             ex = note(self, timeout)
             if ex is not None:
                 raise ex
-            return orig_comm(self, input, timeout)
+            return orig_comm(self, input, None if (first and getattr(self, '_c19_tagged', False)) else timeout)
 
         subprocess.Popen.wait = wait
         subprocess.Popen.communicate = communicate
@@ -551,8 +561,37 @@ def spawn(kind, ds):
     return {'k': 'spawn', 'kind': kind, 'ds': list(ds)}
 
 
-def setv(v):
-    return {'k': 'set', 'v': v}
+BIG = [2 ** 31 - 1, 2 ** 31, 10 ** 12]  # "large" values of the timeout domain (INTEGER >= 0, no upper bound)
+BOUNDARY = [0, 1] + BIG
+
+
+def setv(v, form='lit', sym=None):
+    """`timeout = none | INTEGER`; the integer written as a literal, as an expression or through a symbol"""
+    ins = {'k': 'set', 'v': v}
+    if v is not None and form != 'lit':
+        ins['form'] = form
+        if form == 'sym':
+            ins['sym'] = sym
+    return ins
+
+
+def defint(sym, v):
+    """`def string SYM = v` (first in [setup], so that the definition is always executed)"""
+    return {'k': 'defint', 'sym': sym, 'v': v}
+
+
+def set_text(ins):
+    v = ins['v']
+    if v is None:
+        return 'none'
+    form = ins.get('form', 'lit')
+    if form == 'expr':
+        return '%d-%d' % (v + 7, 7)
+    if form == 'quoted':
+        return '"%d * 1"' % v
+    if form == 'sym':
+        return '@[%s]@' % ins['sym']
+    return str(v)
 
 
 def plain(b):
@@ -610,6 +649,52 @@ def systematic_cases(quick):
                 if ph != 'cleanup':
                     c['phases']['cleanup'] = [MARK()]
                 out.append(c)
+    # boundary values of the timeout domain: 0 (a limit, NOT "no limit"), 1, large; written as literal / expression /
+    # quoted expression / symbol reference; child needing exactly the limit (stays) and one second more (expires)
+    forms = ['lit', 'expr', 'quoted', 'sym']
+    k = 0
+    for ph in PH:
+        kinds = [kd for kd, (n, phs) in KINDS.items() if ph in phs]
+        for kind in kinds:
+            n = KINDS[kind][0]
+            ts = BOUNDARY if (not quick or kind in ('run', 'shell', 'pct', 'file-src')) else [0]
+            for t in ts:
+                for over in (True, False):
+                    form = forms[k % 4]
+                    k += 1
+                    c = empty_case()
+                    if form == 'sym':
+                        c['phases']['setup'].append(defint('LIMIT', t))
+                    ds = [t + 1 if over else t] + [t] * (n - 1)
+                    if n == 2 and k % 2:
+                        ds.reverse()
+                    c['phases'][ph] = c['phases'][ph] + [setv(t, form, 'LIMIT'), spawn(kind, ds)]
+                    c['phases']['cleanup'] = c['phases']['cleanup'] + [MARK()]
+                    out.append(c)
+            # 0 set after the use is not retroactive; 0 lifted by none; 0 replaced by a positive limit; 0 set in an earlier phase
+            for instrs in ([spawn(kind, [1] * n), setv(0)], [setv(0), setv(None), spawn(kind, [5] * n)],
+                           [setv(0, 'expr'), setv(3), spawn(kind, [2] * n)], [setv(4), setv(0), spawn(kind, [1] * n), MARK()]):
+                c = empty_case()
+                c['phases'][ph] = instrs
+                out.append(c)
+            if ph != 'setup':
+                c = empty_case(act_d=0)
+                c['phases']['setup'] = [setv(0)]
+                c['phases'][ph] = c['phases'][ph] + [spawn(kind, [1] * n)]
+                c['phases']['cleanup'] = c['phases']['cleanup'] + [MARK()]
+                out.append(c)
+    for actor in ACTORS:
+        for t in BOUNDARY:
+            for over in (True, False):
+                for opt in (None, '--act'):
+                    c = empty_case(actor, t + 1 if over else t, opt)
+                    c['phases']['setup'] = [setv(t, forms[k % 3])]
+                    k += 1
+                    c['phases']['cleanup'] = [MARK(), setv(0), MARK(), spawn('run', [1]), MARK()]
+                    out.append(c)
+        c = empty_case(actor, 0)
+        c['phases']['setup'] = [setv(5), {'k': 'stdin', 'd': 1}, setv(0)]
+        out.append(c)
     # the action to check under each actor; stdin from a program; set in setup before/after; options
     for actor in ACTORS:
         for opt in (None, '--act', '--keep'):
@@ -654,11 +739,11 @@ def random_case(rng):
         for _ in range(rng.choice([0, 1, 1, 2, 2, 3, 4, 5])):
             r = rng.below(100)
             if r < 30:
-                c['phases'][ph].append(setv(rng.choice([None, None, 1, 2, 3, 5, 8, 60])))
+                c['phases'][ph].append(setv(rng.choice([None, None, 0, 0, 1, 1, 2, 3, 5, 8, 60] + BIG), rng.choice(['lit', 'lit', 'expr', 'quoted'])))
             elif r < 80:
                 kinds = [k for k, (n, phs) in KINDS.items() if ph in phs]
                 kind = rng.choice(kinds)
-                ds = [rng.choice([0, 0, 0, 1, 1, 2, 2, 4, 6, 9, 70]) for _ in range(KINDS[kind][0])]
+                ds = [rng.choice([0, 0, 0, 0, 1, 1, 2, 2, 4, 6, 9, 70, 2 ** 31, 10 ** 12 + 1]) for _ in range(KINDS[kind][0])]
                 c['phases'][ph].append(spawn(kind, ds))
             elif r < 88:
                 c['phases'][ph].append(plain('ok'))
@@ -795,6 +880,12 @@ def real_site_cases(ph, kind, actor, thorough):
     n = 1 if ph == 'act' else KINDS[kind][0]
     long_ds = [3] + [0] * (n - 1)
     out = [base(long_ds, [setv(REAL_LIMIT)], 'sleep'), base([0] * n, [setv(REAL_LIMIT)], 'just-before'), base(long_ds, [setv(REAL_LIMIT)], 'ignore-term')]
+    # `timeout = 0` is a limit of zero seconds (not "no limit"): the sleeping child is killed at once.  The cleanup marker
+    # needs a positive limit again (a real child never finishes within 0 s).
+    z = base(long_ds, [setv(0)], 'sleep')
+    if ph != 'cleanup':
+        z['phases']['cleanup'] = [setv(REAL_LIMIT)] + z['phases']['cleanup']
+    out.append(z)
     if thorough:
         out.append(base([2] + [0] * (n - 1), [setv(REAL_LIMIT), setv(None)], 'sleep'))  # lifted: a 2 s child completes
         if ph != 'act':
@@ -898,8 +989,27 @@ class RealRunner:
         left = [x for x in os.listdir(tmp) if x.startswith('exactly-')]
         recs = [(n, None) for (_, n, _, _) in starts]
         failure, ident = (None, 'HUNG') if hung else parse_verdict(rc, out, err, em)
+        # A child killed before it could write its start file (limit of 0 seconds: killed at once) was nevertheless
+        # started: Exactly's report of the expiry ("Command '[... C19T<n>D<d> ...]' timed out after ...") names it.  It is
+        # entered where the failing step is: before the processes of the cleanup phase that follow (at the end, if the
+        # failing step is in cleanup).
+        inferred = []
+        for m in re.finditer(r"^Command .*?C19T(\d+)D\d+.* timed out after", err, re.M):
+            n = int(m.group(1))
+            if n not in [x for (x, _) in recs] and n not in inferred:
+                inferred.append(n)
+        for n in inferred:
+            site = em.tag_site.get(n)
+            pos = len(recs)
+            if site is not None and site[0] != 'cleanup':
+                for i, (x, _) in enumerate(recs):
+                    if em.tag_site.get(x, ('?',))[0] == 'cleanup':
+                        pos = i
+                        break
+            recs.insert(pos, (n, None))
         obs = {'calls': canonical_calls(recs, em), 'failure': failure, 'sandbox_left': bool(left), 'ident': ident,
-               'exit_code': rc, 'wall_ms': int(wall * 1000), 'children_alive_afterwards': alive, 'hung': hung}
+               'exit_code': rc, 'wall_ms': int(wall * 1000), 'children_alive_afterwards': alive, 'hung': hung,
+               'started_inferred_from_expiry_report': inferred}
         shutil.rmtree(d, ignore_errors=True)
         return em, obs
 
